@@ -2389,7 +2389,12 @@ class GtkDocCommentBlockWriter(object):
             lines = []
 
             # Identifier part
-            if block.name.startswith('SECTION') or block.name.startswith('ACTION'):
+            if block.name.startswith('ACTION:'):
+                # Action identifiers are stored as 'ACTION:ClassName:action.name',
+                # the GTK-Doc identifier syntax for them is 'ClassName|action.name'
+                class_name, action_name = block.name[len('ACTION:'):].split(':', 1)
+                lines.append('%s|%s' % (class_name, action_name))
+            elif block.name.startswith('SECTION') or block.name.startswith('ACTION'):
                 lines.append(block.name)
             else:
                 if block.annotations:
